@@ -4,6 +4,7 @@ package harness
 
 import (
 	"fmt"
+	"testing"
 	"time"
 
 	"pgregory.net/rapid"
@@ -16,8 +17,29 @@ func init() {
 			"call procedures of silent callees, yield towards silent callers, use the meta API, kill silent and live sessions, leave; a closing scenario makes a callee yield to a silent caller whose queue is full and then issue a request of its own. " +
 			"Oracle: the broker/dealer/meta reference models demand every reply, EVENT and INVOCATION for every session that reads, in the step (virtual instant) of the request; a session that reads again finds exactly the first <queue size> messages routed to it while silent, in order, nothing else " +
 			"(queue size + 1 for serialised transports, whose send handler holds one message); calls whose callee or caller is silent are accepted either way except that the yielding callee must be served again within two result-retry periods and every request of a reading session must have been accepted by the router at the end; " +
-			"synctest deadlock, leak and real-time hang verdicts are violations. Non-trivial = a silent session whose queue overflowed while >=2 other sessions had traffic; distinct = case hash",
-		Gen: genC07,
+			"synctest deadlock, leak and real-time hang verdicts are violations. One case in eight is instead a concurrent workload (the C08 rig: every session an actor goroutine issuing publish / subscribe / register / unregister / call / meta-procedure bursts at once, 3 runs), judged for deadlock and unanswered requests. Non-trivial = a silent session whose queue overflowed while >=2 other sessions had traffic; distinct = case hash",
+		Gen: func(t *rapid.T) *Case {
+			if pct(t, 12, "actors") {
+				// deadlock freedom under true concurrency: the C08 workload (every session an
+				// actor goroutine, meta procedure calls included), judged for C07
+				c := genC08(t)
+				c.Engine = "actors"
+				return c
+			}
+			return genC07(t)
+		},
+		Exec: func(t *testing.T, c *Case, trace bool) Verdict {
+			if c.Engine == "actors" {
+				v := execC08(t, c, trace)
+				v.Prop = "C07"
+				if v.Kind == "ok" {
+					v.Stats.Label("concurrent_actor_case")
+				}
+				return v
+			}
+			return runRouterEngine(registry["C07"], c, trace)
+		},
+		ParRuns: 3,
 		NewOracle: func(c *Case) Oracle {
 			var b *brokerPart
 			var d *dealerPart
@@ -94,14 +116,18 @@ func genC07(t *rapid.T) *Case {
 		c.Sess = append(c.Sess, s)
 	}
 	topics := []string{"a", "a.b", "b"}
+	var silentTopic []string // first subscription of each session that will go silent
+	var silentReg []int      // those of them that register a procedure
 	// the sessions that will go silent subscribe and register first
 	for i := 0; i < nstall; i++ {
 		c.Ops = append(c.Ops, Op{K: "subscribe", S: i, URI: pick(t, topics, "st")})
 		if pct(t, 50, "catchall") {
 			c.Ops = append(c.Ops, Op{K: "subscribe", S: i, URI: "a", Mode: "prefix"})
 		}
-		if pct(t, 50, "sreg") {
+		silentTopic = append(silentTopic, c.Ops[len(c.Ops)-1-btoi(c.Ops[len(c.Ops)-1].Mode == "prefix")].URI)
+		if pct(t, 60, "sreg") {
 			c.Ops = append(c.Ops, Op{K: "register", S: i, URI: fmt.Sprintf("verif.silent%d", i)})
+			silentReg = append(silentReg, i)
 		}
 	}
 	// a reading subscriber to the same topics
@@ -137,6 +163,27 @@ func genC07(t *rapid.T) *Case {
 			return out
 		case k < 58:
 			return []Op{{K: "call", S: other, URI: fmt.Sprintf("verif.silent%d", uni(t, nstall, "sc")), Args: []V{VInt(1)}}}
+		case k < 61 && len(silentReg) > 0:
+			// a call pending at a silent callee whose queue is full is cancelled, or times out:
+			// the INTERRUPT cannot be delivered, nobody else may notice
+			s := pick(t, silentReg, "cs")
+			out := []Op{{K: "stall", S: s}}
+			call := Op{K: "call", S: other, URI: fmt.Sprintf("verif.silent%d", s), Args: []V{VInt(2)}}
+			timeout := pct(t, 30, "calltimeout")
+			if timeout {
+				call.Opts = []KV{{"timeout", VInt(100)}}
+			}
+			out = append(out, call)
+			for i := 0; i < c.Sess[s].QSize+3; i++ {
+				out = append(out, Op{K: "publish", S: other, URI: silentTopic[s], Args: []V{VInt(i)}})
+			}
+			if timeout {
+				out = append(out, Op{K: "advance", Ns: 200e6})
+			} else {
+				out = append(out, Op{K: "cancel", S: other, Ref: "call:-1:-1", Mode: pick(t, []string{"kill", "killnowait", "skip"}, "cmode")})
+			}
+			// and life goes on for the others
+			return append(out, Op{K: "publish", S: other, URI: "b", Opts: []KV{{"acknowledge", VBool(true)}}}, Op{K: "meta", S: other, URI: "wamp.registration.list"})
 		case k < 64:
 			// a silent session sends something itself (it stopped reading, not writing)
 			s := uni(t, nstall, "sw")
@@ -185,4 +232,11 @@ func genC07(t *rapid.T) *Case {
 			Op{K: "publish", S: other, URI: "verif.after", Opts: []KV{{"acknowledge", VBool(true)}}})
 	}
 	return c
+}
+
+func btoi(b bool) int {
+	if b {
+		return 1
+	}
+	return 0
 }
